@@ -1432,6 +1432,13 @@ fire("c10-lagged-factor-shift-by-t", "C10", SUMPROD,
 silent("c10-s-lagged-truncated-from-floor", "C10", SUMPROD,
        "        truncated_duration = duration - remaining_duration\n", "        truncated_duration = duration // period * period\n")
 
+fire("c19-align-event-tail-starts-at-zero", "C19", TENSOR,
+     "            range(len(permutation), len(permutation) + len(self.output.shape))\n", "            range(len(self.output.shape))\n", "R19.8", "Tensor.align")
+fire("c19-to-data-sizes-from-unpermuted-array", "C19", TENSOR,
+     "        for dim, size in zip(dims, data.shape):\n", "        for dim, size in zip(dims, x.data.shape):\n", "R19.9", "tensor_to_data")
+fire("c19-to-data-sizes-paired-with-unsorted-dims", "C19", TENSOR,
+     "        for dim, size in zip(dims, data.shape):\n", "        for dim, size in zip(unsorted_dims, data.shape):\n", "R19.9", "tensor_to_data")
+
 # ===== derived variants: must stay at the END of this file (they enumerate every rename() variant above) =====
 # `if c: A else: B` -> `if not c: B else: A` in the anchor functions (behaviour-preserving)
 def invert(prop, file, qual):
